@@ -167,6 +167,24 @@ def _replay_record(rec):
     return bad
 
 
+def _chunk_file(args):
+    """Replay the records of one file; returns [(record, failures)] for the records with failures only."""
+    import warnings
+
+    warnings.simplefilter("ignore")
+    np.seterr(all="ignore")
+    path, maxcors = args
+    out = []
+    with open(path) as fh:
+        for line in fh:
+            r = json.loads(json.loads(line))
+            r["_maxcors"] = maxcors
+            bad = replay_record(r)
+            if bad:
+                out.append(({k: r[k] for k in ("hist", "maxcor", "X", "G")}, bad))
+    return out
+
+
 def _chunk(recs):
     import warnings
 
